@@ -1,5 +1,10 @@
 package id
 
+import (
+	json "github.com/bytedance/sonic"
+	"github.com/muyo/sno"
+)
+
 // C20: generated identifiers never collide.
 
 // two fallback generators created one after the other (the clock may or may not have advanced between the two
@@ -113,3 +118,36 @@ func verifSnotime3() uint64 { return uint64(verifChoice("snotime", 5, 7)) }
 // the same, but monotonic across all goroutines (no clock regression)
 func verifSnotimeMono2() uint64 { return uint64(verifClock("snotime", 5, 6)) }
 func verifSnotimeMono3() uint64 { return uint64(verifClock("snotime", 5, 7)) }
+
+// C20.f: a generator restored from a snapshot continues exactly where the snapshot was taken: RestoreIdGenerator
+// reproduces partition, bounds, sequence, wall clock high-water mark and drift count (so that the induction of C20.c
+// carries over to ids issued before the snapshot).  The snapshot is symbolic, including the state of an exhausted pool
+// (sequence beyond the upper bound).  JSON is uninterpreted with the contract Unmarshal(Marshal(v)) = v.
+func verifSnotimeFive() uint64 { return 5 }
+
+var verifSeqs = []uint32{2, 3, 40, 41, 45}
+
+func VerifC20f_Restore() {
+	snap := sno.GeneratorSnapshot{
+		Partition:   sno.Partition{1, 2},
+		SequenceMin: 2,
+		SequenceMax: 40,
+		Sequence:    verifSeqs[verifChoice("seq", 0, len(verifSeqs)-1)],
+		Now:         5,
+		WallHi:      5,
+		WallSafe:    int64(verifChoice("safe", 0, 5)),
+		Drifts:      uint32(verifChoice("drifts", 0, 1)),
+	}
+	data, err := json.Marshal(snap)
+	verifAssert(err == nil, "snapshot marshals")
+	g, err := GetSno().RestoreIdGenerator(verifCtx(), data, nil)
+	verifAssert(err == nil && g != nil, "a generator is restored from a valid snapshot")
+	if err != nil || g == nil {
+		return
+	}
+	verifReach("restored")
+	back := g.(*SnoGenerator).Generator.Snapshot()
+	verifAssert(back.Sequence == snap.Sequence, "the restored generator continues with the snapshot's sequence (also when the pool was exhausted)")
+	verifAssert(back.WallHi == snap.WallHi && back.WallSafe == snap.WallSafe && back.Drifts == snap.Drifts, "the restored generator keeps the snapshot's clock marks and drift count")
+	verifAssert(back.Partition == snap.Partition && back.SequenceMin == snap.SequenceMin && back.SequenceMax == snap.SequenceMax, "the restored generator keeps partition and sequence bounds")
+}
